@@ -131,6 +131,11 @@ fn reference_kinds(thorough: bool) -> Vec<Subject> {
         ("fault/variable-declared-only-in-another-program", vec![("Holder", "program", "PROGRAM Holder VAR zz : INT ; END_VAR zz := 1 ; END_PROGRAM")], ("C", "function", "FUNCTION C : INT VAR_INPUT a : INT ; END_VAR C := zz ; END_FUNCTION"), true),
         ("fault/constant-declared-only-in-another-function-block", vec![("Holder", "fb", "FUNCTION_BLOCK Holder VAR CONSTANT k : INT := 1 ; END_VAR VAR n : INT ; END_VAR n := k ; END_FUNCTION_BLOCK")], ("C", "fb", "FUNCTION_BLOCK C VAR n : INT ; END_VAR n := k ; END_FUNCTION_BLOCK"), true),
         ("fault/external-declared-only-in-another-function-block", vec![main, cfg, ("Holder", "fb", "FUNCTION_BLOCK Holder VAR_EXTERNAL CONSTANT G : INT ; END_VAR VAR n : INT ; END_VAR n := G ; END_FUNCTION_BLOCK")], ("C", "fb", "FUNCTION_BLOCK C VAR n : INT ; END_VAR n := G ; END_FUNCTION_BLOCK"), true),
+        // the same declaration twice (each copy may be the whole content of its own file)
+        ("fault/identical-function-block-twice", vec![("Twin", "fb", "FUNCTION_BLOCK Twin VAR n : INT ; END_VAR n := 1 ; END_FUNCTION_BLOCK")], ("Twin", "fb", "FUNCTION_BLOCK Twin VAR n : INT ; END_VAR n := 1 ; END_FUNCTION_BLOCK"), true),
+        ("fault/identical-type-twice", vec![("Twin", "type", "TYPE Twin : ( A , B ) ; END_TYPE")], ("Twin", "type", "TYPE Twin : ( A , B ) ; END_TYPE"), true),
+        ("fault/identical-function-twice", vec![("Twin", "function", "FUNCTION Twin : INT VAR_INPUT a : INT ; END_VAR Twin := a ; END_FUNCTION")], ("Twin", "function", "FUNCTION Twin : INT VAR_INPUT a : INT ; END_VAR Twin := a ; END_FUNCTION"), true),
+        ("fault/identical-program-twice", vec![("Twin", "program", "PROGRAM Twin VAR n : INT ; END_VAR n := 1 ; END_PROGRAM")], ("Twin", "program", "PROGRAM Twin VAR n : INT ; END_VAR n := 1 ; END_PROGRAM"), true),
         ("fault/self-reference-through-provider", vec![("Pt", "type", "TYPE Pt : STRUCT c : C ; END_STRUCT ; END_TYPE")], ("C", "type", "TYPE C : STRUCT p : Pt ; END_STRUCT ; END_TYPE"), true),
     ];
     let filler_fb = ("Other", "fb", "FUNCTION_BLOCK Other VAR n : INT ; END_VAR n := 1 ; END_FUNCTION_BLOCK");
